@@ -15,7 +15,13 @@ import (
 	"verif/harness/world"
 )
 
-const VerifDir = "/verif"
+// VerifDir is where evidence/, out/ and known_findings.json live (VERIF_DIR, default /verif).
+var VerifDir = func() string {
+	if d := os.Getenv("VERIF_DIR"); d != "" {
+		return d
+	}
+	return "/verif"
+}()
 
 // ---------------------------------------------------------------------------------------------
 // conformance: replay search-tree paths at seam B and compare the full store dumps
